@@ -589,6 +589,48 @@ fn replay_case(t: &mut Trace, engine: Engine, ops: &[String], tag: &str) {
     });
 }
 
+/// All sequences over {open s, poll s, drop s | s in 0..3} of length `depth` on one URI, after
+/// `open 0; id; put` and followed by a read of the value through every slot (small-scope exhaustive).
+fn exhaustive_handover(t: &mut Trace, engine: Engine, depth: usize, shard: u64, nshards: u64) {
+    let uri = "2f61";
+    let mut alphabet: Vec<String> = vec![];
+    for s in 0..3 {
+        alphabet.push(format!("open {} 0 {}", s, uri));
+        alphabet.push(format!("poll {}", s));
+        alphabet.push(format!("drop {}", s));
+    }
+    let k = alphabet.len();
+    let mut idx = vec![0usize; depth];
+    let mut count = 0u64;
+    loop {
+        if count % nshards == shard {
+            let mut ops: Vec<String> = vec![format!("open 0 0 {}", uri), "id 0 63".into(), "put 0 0 aa".into()];
+            ops.extend(idx.iter().map(|&j| alphabet[j].clone()));
+            for s in 0..3 {
+                ops.push(format!("poll {}", s));
+            }
+            for s in 0..3 {
+                ops.push(format!("get {} 0", s));
+            }
+            t.case(format!("exh depth={} #{}", depth, count));
+            replay_case(t, engine, &ops, &format!("x{}-{}", shard, count));
+        }
+        count += 1;
+        let mut p = depth;
+        loop {
+            if p == 0 {
+                return;
+            }
+            p -= 1;
+            idx[p] += 1;
+            if idx[p] < k {
+                break;
+            }
+            idx[p] = 0;
+        }
+    }
+}
+
 fn engine_of(s: &str) -> Option<Engine> {
     match s {
         "rocks" => Some(Engine::Rocks),
@@ -611,6 +653,14 @@ pub fn main_for(default_engine: Engine) {
             let mut t = Trace::create(&out);
             if extra.first().map(|s| s.as_str()) == Some("crash") {
                 crash::explore(&mut t, seed, cases);
+                t.finish();
+                return;
+            }
+            if extra.first().map(|s| s.as_str()) == Some("exhaustive") {
+                // exhaustive <depth> <nshards>: every hand-over choreography of 3 slots on one URI up to <depth>
+                let depth: usize = extra[1].parse().unwrap();
+                let nshards: u64 = extra.get(2).map(|s| s.parse().unwrap()).unwrap_or(1);
+                exhaustive_handover(&mut t, default_engine, depth, seed % 1000, nshards);
                 t.finish();
                 return;
             }
